@@ -27,7 +27,12 @@ func probesFor(prop string) []ProbeFinding {
 		if o.Kind == "grads" {
 			for _, g := range o.Grads {
 				if g.Name == 0 && !g.Nil && len(g.Vals) == 1 && g.Vals[0] != 1 {
-					out = append(out, ProbeFinding{Key: "D10", What: "near-tie within the equality threshold halves the ElMax gradient",
+					// the recorded finding is the HALVED gradient; any other value there is a different violation
+					key, what := "D10", "near-tie within the equality threshold halves the ElMax gradient"
+					if g.Vals[0] != 0.5 {
+						key, what = "near-tie-gradient-neither-1-nor-half", "ElMax(a,b) with 0 < a-b <= 1e-240: the gradient of a is neither the derivative 1 nor the recorded 1/2"
+					}
+					out = append(out, ProbeFinding{Key: key, What: what,
 						Scenario: scenarioString(r.Cmds), Observed: fmt.Sprint(g.Vals), Expected: "[1]"})
 				}
 			}
@@ -96,7 +101,11 @@ func probesFor(prop string) []ProbeFinding {
 		if o.Kind == "grads" {
 			for _, g := range o.Grads {
 				if g.Name == 0 && !g.Nil && len(g.Vals) == 1 && g.Vals[0] != 1 {
-					out = append(out, ProbeFinding{Key: "D10", What: "Relu at an input within 1e-240 of 0 gets the tie gradient 1/2 instead of 1",
+					key, what := "D10", "Relu at an input within 1e-240 of 0 gets the tie gradient 1/2 instead of 1"
+					if g.Vals[0] != 0.5 {
+						key, what = "near-tie-gradient-neither-1-nor-half", "Relu at an input within 1e-240 of 0: the gradient is neither the derivative 1 nor the recorded 1/2"
+					}
+					out = append(out, ProbeFinding{Key: key, What: what,
 						Scenario: scenarioString(r.Cmds), Observed: fmt.Sprint(g.Vals), Expected: "[1]"})
 				}
 			}
